@@ -151,7 +151,16 @@ def faultObs (ws : List String) : String :=
   let gapOk := match kv ws "gap" with
     | none => true
     | some g => match g.toNat? with | some g => g ≤ 1500 | none => false
-  if gapOk then "before=12 killed=- window=22 replaced=1 later-all-served=1" else "bad-op"
+  -- `stop=1`: a connection is then held on the replacement worker and a graceful stop issued: the command loop
+  -- (`ServerCmd`) stops every current worker, the replacement included, and the stop does not complete early
+  let withStop : Option Bool := match kv ws "stop" with | none => some false | some "1" => some true | _ => none
+  match gapOk, withStop with
+  | true, some false => "before=12 killed=- window=22 replaced=1 later-all-served=1"
+  | true, some true =>
+    let run := ServerCmd.serve ServerCmd.srcWakeFirst 2 [.faulted 0, .stop true]
+    let waited := run.log.contains (.awaitWorker 0) && run.log.contains (.awaitWorker 1)
+    s!"before=12 killed=- window=22 replaced=1 later-all-served=1 stop={if run.returned then "resolved" else "never"} early={bit (!waited)}"
+  | _, _ => "bad-op"
 
 def sigObs (ws : List String) : String :=
   if kv ws "skip" == some "ports" then "skipped" else
